@@ -292,3 +292,89 @@ pub fn fixed_universe() -> Universe {
     gen::extend_universe(&mut u, &choices, UniCfg { n_adts: 24, n_builtin_subjects: 30, ..UniCfg::default() });
     u
 }
+
+
+/// Extra hand-written shapes (label "extra"): not frozen, no corpus. Shapes added here were found to
+/// matter by the seeded-change campaign (section 9 of DESIGN.md) or by the design's coverage goals:
+/// large alignment units, preceding content of every length, single-field deep wrappers of zero-copy
+/// aggregates, inclusive ranges and options at ε positions followed by data, a type whose `Drop`
+/// reads its borrowed data.
+pub fn extra_universe() -> Universe {
+    use CopyKind::*;
+    use Prim::*;
+    let mut u = Universe { label: "extra".into(), adts: vec![], subjects: vec![], pairs: vec![] };
+    let mut add = |d: AdtDef| -> usize {
+        u.adts.push(d);
+        u.adts.len() - 1
+    };
+    let za = add(def("ZA", Zero, &["C"], vec![], Body::Struct(named(&[("a", p(U8)), ("b", p(U32))]))));
+    let z32 = add(def("ZA32", Zero, &["C", "align(32)"], vec![], Body::Struct(named(&[("x", p(U16)), ("y", p(U64))]))));
+    let z64 = add(def("ZA64", Zero, &["C", "align(64)"], vec![], Body::Struct(named(&[("x", p(U8))]))));
+    let z16 = add(def("ZP16", Zero, &["C"], vec![], Body::Struct(named(&[("lo", p(U64)), ("hi", p(U64))]))));
+    let z12 = add(def("ZP12", Zero, &["C"], vec![], Body::Struct(named(&[("a", p(U32)), ("b", p(U32)), ("c", p(U32))]))));
+    // preceding content of every length before a block
+    let pre = add(def("Pre", DeepPlain, &[], vec![tparam("A", &[]), tparam("B", &[])], Body::Struct(named(&[("a", Ty::Param(0)), ("b", Ty::Param(1))]))));
+    // the same with the block at a position that is fully (not ε-) deserialized
+    let pre_full = add(def("PreFull", DeepPlain, &[], vec![tparam("B", &[ZC])], Body::Struct(named(&[("a", Ty::String), ("b", Ty::vec(Ty::Param(0))), ("tail", p(U16))]))));
+    // single-field deep wrappers of zero-copy aggregates
+    let id = add(def("Id", DeepPlain, &[], vec![], Body::Struct(named(&[("bytes", Ty::arr(p(U8), 16))]))));
+    let tw = add(def("TupW", DeepAttr, &[], vec![], Body::Struct(Fields::Tuple(vec![Ty::tup(p(U32), 2)]))));
+    let zw = add(def("ZW", DeepPlain, &[], vec![], Body::Struct(named(&[("z", Ty::adt(za, vec![]))]))));
+    let g1 = add(def("G1", DeepPlain, &[], vec![tparam("A", &[])], Body::Struct(named(&[("a", Ty::Param(0))]))));
+    // ε positions followed by data
+    let tail = add(def("Tail", DeepPlain, &[], vec![tparam("A", &[])], Body::Struct(named(&[("a", Ty::Param(0)), ("t1", p(U8)), ("t2", p(U64)), ("t3", Ty::String)]))));
+    let etail = add(def(
+        "ETail",
+        DeepPlain,
+        &[],
+        vec![tparam("A", &[]), tparam("B", &[])],
+        Body::Enum(vec![("One".into(), Fields::Tuple(vec![Ty::Param(0), p(U32)])), ("Two".into(), named(&[("x", Ty::Param(1)), ("y", Ty::Param(0)), ("z", p(U8))])), ("Nil".into(), Fields::Unit)]),
+    ));
+    // a type whose Drop reads the data it borrows (see render.rs: definitions named DropAudit get a Drop impl)
+    let audit = add(def("DropAudit", DeepPlain, &[], vec![tparam("A", &["AsRef<[u64]>"])], Body::Struct(named(&[("a", Ty::Param(0)), ("n", p(U32))]))));
+
+    let mut s: Vec<Ty> = vec![];
+    let blocks = [
+        Ty::vec(Ty::adt(z64, vec![])),
+        Ty::adt(z32, vec![]),
+        Ty::vec(Ty::adt(z32, vec![])),
+        Ty::vec(p(U64)),
+        Ty::arr(p(U128), 2),
+        Ty::vec(p(U16)),
+        Ty::arr(Ty::adt(z16, vec![]), 3),
+        Ty::arr(Ty::adt(z12, vec![]), 2),
+        Ty::arr(Ty::arr(p(U32), 2), 3),
+        Ty::tup(p(U64), 2),
+        Ty::bslice(p(U32)),
+        Ty::adt(z64, vec![]),
+    ];
+    for b in &blocks {
+        s.push(Ty::adt(pre, vec![a(Ty::String), a(b.clone())]));
+    }
+    s.push(Ty::adt(pre, vec![a(Ty::vec(p(U8))), a(Ty::vec(p(U64)))]));
+    s.push(Ty::adt(pre, vec![a(Ty::vec(p(U16))), a(Ty::vec(p(U64)))]));
+    s.push(Ty::adt(pre, vec![a(Ty::vec(p(U64))), a(Ty::vec(p(U16)))]));
+    s.push(Ty::adt(pre, vec![a(Ty::String), a(Ty::adt(pre, vec![a(Ty::vec(p(U16))), a(Ty::vec(p(U64)))]))]));
+    for e in [p(U64), p(U32), Ty::adt(z64, vec![]), Ty::adt(z32, vec![]), Ty::adt(z16, vec![]), Ty::arr(p(U16), 3)] {
+        s.push(Ty::adt(pre_full, vec![a(e)]));
+    }
+    for t in [Ty::adt(id, vec![]), Ty::adt(tw, vec![]), Ty::adt(zw, vec![]), Ty::adt(g1, vec![a(Ty::arr(p(U64), 2))]), Ty::adt(g1, vec![a(Ty::adt(za, vec![]))])] {
+        s.push(t.clone());
+        s.push(Ty::vec(t.clone()));
+        s.push(Ty::bslice(t.clone()));
+        s.push(Ty::arr(t, 3));
+    }
+    for k in RangeKind::ALL {
+        s.push(Ty::adt(tail, vec![a(Ty::range(k, p(U32)))]));
+        s.push(Ty::adt(tail, vec![a(Ty::opt(Ty::range(k, p(I64))))]));
+    }
+    for x in [Ty::opt(p(U8)), Ty::opt(Ty::vec(p(U64))), Ty::bound(p(U16)), Ty::cf(p(U8), Ty::String), Ty::vec(p(U64)), Ty::arr(Ty::opt(p(U32)), 2), Ty::vec(Ty::vec(p(U32))), Ty::arr(Ty::arr(p(U32), 2), 3), Ty::arr(Ty::adt(z16, vec![]), 2)] {
+        s.push(Ty::adt(tail, vec![a(x.clone())]));
+        s.push(Ty::adt(etail, vec![a(x.clone()), a(Ty::vec(p(U16)))]));
+    }
+    s.push(Ty::adt(audit, vec![a(Ty::vec(p(U64)))]));
+    s.push(Ty::adt(audit, vec![a(Ty::bslice(p(U64)))]));
+    s.push(Ty::vec(Ty::adt(audit, vec![a(Ty::vec(p(U64)))])));
+    u.subjects = s;
+    u
+}
